@@ -123,6 +123,10 @@ def run_standard(case):
     shutil.rmtree(out, ignore_errors=True)
     t0 = time.time()
     kw = std_kwargs(case.get("kwargs", {}))
+    if kw.get("uninformed_proposal") == "leaky":
+        from vlib.userproposals import LeakyAnalyticProposal
+
+        kw["uninformed_proposal"] = LeakyAnalyticProposal
     resume_at = case.get("resume_at")
     if resume_at:
         kw.update(checkpointing=True, checkpoint_on_iteration=True, checkpoint_interval=case.get("checkpoint_interval", 40))
